@@ -200,6 +200,40 @@ pub fn check_content(c: &mut Case, name: &str, m: &RefArchive, builds: usize, de
             ),
         );
     }
+    // history on ONE object: serialize, edit, serialize again (anything the object keeps from an
+    // earlier serialize call must not show in a later image)
+    match c.lib("build with serialize() between the edits", || archive::build_real_staged(m)) {
+        None => {}
+        Some(Err(e)) => c.fail("api", "build_staged", format!("{}: {} content={}", name, e, m.describe())),
+        Some(Ok((real, snaps))) => {
+            c.eval(1);
+            c.stat_max("max_serialize_calls_between_edits_of_one_object", snaps as f64);
+            match c.lib("BinArchive::serialize (object serialized between its edits)", || real.serialize().map_err(|e| e.to_string())) {
+                None => {}
+                Some(Err(e)) => c.fail("serialize_err", "serialize_err_staged", format!("{}: serialize returned Err({}) content={}", name, e, m.describe())),
+                Some(Ok(st)) => {
+                    if st != img {
+                        let i = st.iter().zip(img.iter()).position(|(a, b)| a != b).unwrap_or(st.len().min(img.len()));
+                        c.fail(
+                            "nondeterministic",
+                            "stale_after_earlier_serialize",
+                            format!(
+                                "{}: an archive that was serialized {} times between the calls that built it serializes differently from a fresh build of the same content (offset {:#x}); content={} fresh={} staged={}",
+                                name,
+                                snaps,
+                                i,
+                                m.describe(),
+                                hex_short(&img, 200),
+                                hex_short(&st, 200)
+                            ),
+                        );
+                    } else {
+                        c.outcome("serialize_edit_serialize_on_one_object_equals_fresh_build");
+                    }
+                }
+            }
+        }
+    }
     if det {
         c.digest(format!("case{}", c.idx), fnv(&img));
     }
@@ -318,7 +352,7 @@ pub fn gen(rng: &mut crate::prng::Rng, quick: bool) -> RefArchive {
 
 pub fn run(cx: &mut Ctx) {
     cx.require(REQUIRED);
-    cx.rule = "cases = directed contents + random contents (C01 domain without c-strings, biased to ordering corner cases); each content is built through the public API in P different call orders (fresh hash maps each), every image must be byte-identical, equal to the reference writer's canonical image, and reproduced by parse->serialize; in mode 'det' the same contents are rebuilt in >=8 fresh processes and image digests compared by the supervisor. non-trivial = content with >=2 labels and >=2 string cells; threshold contents as in C01 (table sizes, text beyond 64 KiB); every serialize is repeated under a second heap poison byte; distinct by content hash".into();
+    cx.rule = "cases = directed contents + random contents (C01 domain without c-strings, biased to ordering corner cases); each content is built through the public API in P different call orders (fresh hash maps each), every image must be byte-identical, equal to the reference writer's canonical image, and reproduced by parse->serialize; each content is additionally built on ONE object that is serialized between its edits (after each stage and before every label joining an address that already has one) and that object's final image must equal the fresh build's; in mode 'det' the same contents are rebuilt in >=8 fresh processes and image digests compared by the supervisor. non-trivial = content with >=2 labels and >=2 string cells; threshold contents as in C01 (table sizes, text beyond 64 KiB); every serialize is repeated under a second heap poison byte; distinct by content hash".into();
     let det = cx.a.mode == "det";
     let builds = if cfg!(miri) { 3 } else if cx.a.quick() { 4 } else { 12 };
     for (name, m) in directed() {
